@@ -972,6 +972,22 @@ def f(l, n):
     return out
 ''')
 
+
+corpus('''
+def f(o, l):
+    r = [o.bump(x) for x in l if o.peek() % 4 != 0]
+    t = b''.join(bytes([o.bump(1) & 0xff]) for _ in l[:3])
+    return r, t, o.c
+''')
+corpus('''
+def f(o, l):
+    r = [o.bump(x) + y for x in l[:4] for y in o.w[:2]]
+    acc = []
+    for x in l:
+        acc.append(o.bump(x))
+    return r, acc, o.peek()
+''')
+
 # ---- input generation by parameter name ----------------------------------------------------------------------------------------
 
 
